@@ -5,7 +5,7 @@
                            (7265) for the unary clauses, over all pairs of types of <= 2 levels for equality, hash, both orders and matching; all
                            histories of <= 2 (thorough 3) operations; every behaviour is printed for replay
     spec/X03_Poly.tla      workbench over util/poly.py: three registers; load / add / sub / mul / neg / scale / pow / rot / laws / hash.  Init ranges over
-                           ALL polynomials of <= 2 (thorough 3) monomials over x, y with powers in {-1, 1/2, 1, 2} and coefficients in {-1, 1/2, 2};
+                           ALL polynomials of <= 2 (thorough 3) monomials over x, y with powers in {-1, 1, 2, 3} and coefficients in {-1, 1/2, 2};
                            all histories of <= 3 (thorough 4) operations from zero; invariants NormalForm, EvalCommutes (independent semantics:
                            evaluation at four rational points), RingLaws, SeqDenotes
     spec/X03_Machines.tla  both workbenches as functions of ONE step (next state, reference observations, the statement's clauses, divergence),
@@ -19,7 +19,8 @@
                            CompareTransitive, InstFunctional, NeverOverwrites, MatchSound, MatchComplete, MatchRefuses,
                            MatchRaisesOnlyTypeMatchException, SubstExact, SubstOnlyDomain, SubstComposes, CopyIsolated, CopyEqualsOriginal,
                            OperandsUntouched, Constructors; NormalForm, OperationExact, EvalCommutes, RingLaw, EqIsEqualityOfNormalForms,
-                           PredicatesFollowNormalForm, GetConstant, HashDefined, EqualHashes, RationalPowersAccepted, OperationCompletes
+                           PredicatesFollowNormalForm, GetConstant, OperationCompletes (no hash clause: the module defines none; a load refused
+                           for a power that is not an integer is a divergence)
 """
 import copy
 import json
@@ -153,7 +154,7 @@ def run(rep, tier):
     rep.rule = ("TLC: all 7265 types of <= 3 levels over ?'a ?'b 'a 'b nat list fun prod (every unary observation), all pairs of types of <= 2 levels "
                 "(==, hash, <=, <, fast_compare_typ, match), triples for transitivity, all histories of <= %d workbench operations (match_incr on "
                 "a live TyInst, subst, composed substitution, copy, convert_stvar, constructors); all polynomials of <= %d monomials over x, y with "
-                "powers in {-1, 1/2, 1, 2} and coefficients in {-1, 1/2, 2} (for 3 monomials: {-1, 1/2}) (19 ring laws and 7 basic results each, with two fixed partners), all "
+                "powers in {-1, 1, 2, 3} and coefficients in {-1, 1/2, 2} (for 3 monomials: {-1, 1/2}) (19 ring laws and 7 basic results each, with two fixed partners), all "
                 "histories of <= %d register operations from zero.  Every behaviour is replayed into the real code (its last step observed; earlier "
                 "steps are the last steps of shorter behaviours).  Real code: seeded random histories of %d operations over a wider alphabet, "
                 "every step observed.  Non-trivial = every judged step; distinct by the full observed step."
@@ -169,7 +170,9 @@ def run(rep, tier):
                        "there is no convert_tvar in the tree: the way back from convert_stvar is the instantiation ?'n := 'n",
                        "util/poly.py has no evaluation and no is_fraction: evaluation at points is the specification's (four rational points with "
                        "square coordinates), the predicates judged are is_zero_constant / is_nonzero_constant / is_constant / get_constant",
-                       "numbers beyond 2^30 are not examined (TLC integers); Monomial.__le__ / __lt__ are not part of the statement"]
+                       "util/poly.py asserts integer powers and defines no hash: a load refused for a power that is not an integer is a divergence, hash is observed "
+                       "but not judged",
+                       "numbers beyond 2^30 are not examined (TLC integers); Monomial.__le__ / __lt__ are not part of the statement (no caller uses them)"]
     timing = rep.notes.setdefault("timing_s", {})
     seeds = seed()
     # ---------------- S: model checking (prints the behaviours), each followed by its replay into the real code
@@ -274,7 +277,7 @@ def run(rep, tier):
     bad = make_corrupted(ty, po)
     allp = wd / "all.ndjson"
     write_events(allp, [e for nm in fam for e in fam[nm]] + [c for c, _ in bad])
-    v = validate_trace("X03_Trace", allp, wd=wd / "tv", nchunks=2 if quick else 4)
+    v = validate_trace("X03_Trace", allp, wd=wd / "tv", nchunks=3 if quick else 4)
     rep.states += v.get("states", 0)
     timing["trace_validation"] = round(v["wall"], 1)
     got = {f["tid"]: set(f["fail"]) for f in v["fails"]}
